@@ -19,9 +19,9 @@ pub const NAME_ALPHA: [&[u8]; 26] = [
     b"a", b"a-b", b"a1", b"a.", b"b", b"", b"A", b"a b", b"\xc3\xa9", b"x=y", b"x&y", b"%41", b"+", b"~", b"Action",
     b"X-Amz-Foo", b"a%", b"a-", b"a!", b"a~", b"aa", b"\xff", b"\x00", b"a+b",
 ];
-pub const HEADER_POOL: [&str; 10] = [
+pub const HEADER_POOL: [&str; 14] = [
     "x-custom", "x-amz-meta-a", "etag", "content-md5", "accept", "user-agent", "x-amz-content-sha256", "x-cube", "x-amz-meta-b",
-    "cache-control",
+    "cache-control", "x-amz-meta-a-b", "x-custom-2", "content-length", "x-amz-meta-a2",
 ];
 
 pub fn gen_secret(t: &mut Tape) -> String {
@@ -226,11 +226,12 @@ pub fn gen_logical(t: &mut Tape, node: &Node, k: &ReqKnobs) -> Logical {
     let mut body = Vec::new();
     let mut body_defect = false;
     let body_kind = if k.form_focus {
-        match t.below(10) {
+        match t.below(12) {
             0 => 1,
             1 => 2,
             2 => 4,
             3 => 5,
+            4 => 6,
             _ => 0,
         }
     } else {
@@ -244,6 +245,21 @@ pub fn gen_logical(t: &mut Tape, node: &Node, k: &ReqKnobs) -> Logical {
             body = render_form_body(&p, t, 0);
             form_pairs = Some(p);
             let cs = refm::BOGUS_CHARSETS[t.below(refm::BOGUS_CHARSETS.len())];
+            headers.push(("content-type".into(), format!("application/x-www-form-urlencoded; charset={}", cs).into_bytes()));
+        }
+        6 => {
+            // plain ASCII, but declared in a charset it cannot be decoded in (odd length for UTF-16)
+            body_defect = true;
+            let p = gen_pairs(t, 2);
+            body = render_form_body(&p, t, 0);
+            if body.len() % 2 == 0 {
+                body.extend(b"&z");
+            }
+            if body.len() % 2 == 0 {
+                body.push(b'=');
+            }
+            form_pairs = Some(p);
+            let cs = ["utf-16le", "utf-16be", "UTF-16", "utf-16"][t.below(4)];
             headers.push(("content-type".into(), format!("application/x-www-form-urlencoded; charset={}", cs).into_bytes()));
         }
         5 => {
